@@ -87,7 +87,7 @@ pub fn add_subs(subs: &mut Vec<Sub>, sz: Sz) {
         let targets = short_targets();
         let nt = targets.len() as u64;
         let maxlen = 2usize;
-        let cfgs: Vec<Cfg> = cfg_grid(false).into_iter().step_by(sz.pick(8, 2, 1)).collect();
+        let cfgs: Vec<Cfg> = cfg_grid(false).into_iter().skip(sz.pick(5, 0, 0)).step_by(sz.pick(16, 2, 1)).collect();
         let nc = cfgs.len() as u64;
         subs.push(
             Sub::new(&sz.tag(&format!("short-strings-len<={}", maxlen)), nt * 257 * nc, &format!("every byte string of the stated length as each of 21 section kinds (companion sections: a valid seed), under {} configuration(s) out of a 16-element set covering {{LE,BE}} x address size {{1,2,4,8}} x {{32,64}} x version {{2..5}} x vendor; index = (kind, config, first byte | empty)", nc), move |ctx, i| {
@@ -184,10 +184,10 @@ pub fn add_subs(subs: &mut Vec<Sub>, sz: Sz) {
     {
         let pats = operand_patterns();
         let np = pats.len() as u64;
-        let cfgs: Vec<Cfg> = cfg_grid(sz.level == 2).into_iter().step_by(sz.pick(8, 2, 1)).collect();
+        let cfgs: Vec<Cfg> = cfg_grid(sz.level == 2).into_iter().skip(sz.pick(10, 0, 0)).step_by(sz.pick(16, 2, 1)).collect();
         let nc = cfgs.len() as u64;
         // second-operand patterns: all 13, or a 5-element subset in the smallest tier
-        let pb_idx: Vec<usize> = sz.pick(vec![0, 1, 4, 9, 10], (0..13).collect(), (0..13).collect());
+        let pb_idx: Vec<usize> = sz.pick(vec![0, 9, 10], (0..13).collect(), (0..13).collect());
         subs.push(
             Sub::new(&sz.tag("opcode-sweep"), 3 * 256 * np * nc, &format!("{} configuration(s), {} second-operand patterns: every opcode byte 0x00-0xff followed by operand pattern a (13 patterns: empty, small, 2^31, 2^32-1, 2^61, 2^63, 2^64-1, i64::MIN, over-long, all-ones) and then each pattern b, as (0) an expression, (1) a line-program body after a valid header (also as extended opcode), (2) CFI instructions of an FDE", nc, pb_idx.len()), move |ctx, i| {
                 let mut m = Mix(i);
